@@ -3,7 +3,8 @@
   Property theorems only; model: Model/ServerReply.lean (decision sequence of runIPServer /
   runSCIONServer, reply header of handleRequest) over Model/NtpPacket.lean.
   Addressing of the reply over SCION (reversed path) is C13's; the reply's timestamps are
-  C06's; the NTS branch is abstracted as `ntsOk` (C10/C11).
+  C06's; the NTS branch is abstracted per datagram (`ntsOk` / `NtsView`; its content is C10/C11),
+  what it could carry from one datagram to the next is modelled (`runLoopN`).
 -/
 import ScionTime.Proofs.C14Codec
 import ScionTime.Model.ServerReply
